@@ -8,7 +8,7 @@ run_one() {
   kind=$1; item=$2; slot=$3
   wt=/tmp/mx/wt_$slot
   if [ ! -d $wt ]; then git -C /repo worktree add -q --detach $wt HEAD >/dev/null 2>&1; fi
-  git -C $wt checkout -q --detach $(git -C /repo rev-parse HEAD) 2>/dev/null; git -C $wt checkout -q -- . ; git -C $wt clean -fdq
+  git -C $wt reset -q --hard 2>/dev/null; git -C $wt checkout -q --detach $(git -C /repo rev-parse HEAD) 2>/dev/null; git -C $wt reset -q --hard; git -C $wt clean -fdq
   if [ $kind = neutral ]; then
     git -C $wt apply /verif/neutral/$item.diff || { echo "$item: DOES-NOT-APPLY"; return; }
     for p in C01 C02 C03 C04 C05 C06 C07 C08 C09 C10 C11 C12 C13 C14 C15 C16 C17 C18 C19 C20; do
@@ -17,11 +17,12 @@ run_one() {
     done
   else
     p=$(echo $item | cut -d- -f1)
-    git -C $wt apply /verif/seeded/$item/patch.diff 2>/dev/null || git -C $wt apply --3way /verif/seeded/$item/patch.diff >/dev/null 2>&1 || { echo "$item: DOES-NOT-APPLY"; return; }
+    git -C $wt apply /verif/seeded/$item/patch.diff 2>/dev/null || git -C $wt apply --3way /verif/seeded/$item/patch.diff >/dev/null 2>&1 || { echo "$item: DOES-NOT-APPLY"; git -C $wt reset -q --hard; return; }
+    git -C $wt reset -q 2>/dev/null
     out=$(cd /verif && ./check $p --repo $wt --no-evidence 2>&1); rc=$?
     if [ $rc -ne 1 ]; then echo "$item MISSED exit=$rc"; echo "$out" | grep -E "ANALYSIS-ERROR" | cut -c1-260; fi
   fi
-  git -C $wt checkout -q -- . ; git -C $wt clean -fdq
+  git -C $wt reset -q --hard; git -C $wt clean -fdq
 }
 export -f run_one
 if [ $kind = neutral ]; then items=$(ls /verif/neutral/*.diff | xargs -n1 basename | sed 's/.diff$//'); else items=$(ls /verif/seeded); fi
